@@ -21,7 +21,7 @@ type mutation struct {
 	File   string            `json:"file"`
 	Old    string            `json:"old"`
 	New    string            `json:"new"`
-	Edits  []mutEdit         `json:"edits,omitempty"` // additional edits (other files / sites)
+	Edits  []mutEdit         `json:"edits,omitempty"`  // additional edits (other files / sites)
 	Expect map[string]string `json:"expect,omitempty"` // property -> substring of a violated obligation key
 	Silent []string          `json:"silent,omitempty"` // properties that must stay silent
 	Note   string            `json:"note,omitempty"`
